@@ -246,7 +246,18 @@ func init() {
 		}
 		return nil
 	}
-	intrinsics["sort.Slice"] = sortSlice
+	// sort.Slice is NOT stable: the order of equal elements is whatever the
+	// standard library's pdqsort produces. sort.Sort on an adapter runs the
+	// same generated algorithm (zsortfunc.go / zsortinterface.go come from one
+	// template), so the comparisons and swaps are exactly sort.Slice's.
+	intrinsics["sort.Slice"] = func(fr *frame, a []value) value {
+		xs, ok := a[0].(iface).v.([]value)
+		if !ok {
+			panic(unsupported{"sort.Slice of a non-slice value"})
+		}
+		sort.Sort(&sliceAdapter{fr: fr, xs: xs, less: a[1]})
+		return nil
+	}
 	intrinsics["sort.SliceStable"] = sortSlice
 	intrinsics["sort.Ints"] = func(fr *frame, a []value) value {
 		xs := a[0].([]value)
@@ -380,4 +391,27 @@ func init() {
 	for _, n := range []string{"Println", "Print", "Info", "Infoln", "Debug", "Debugln", "Warn", "Warnln"} {
 		intrinsics["(*github.com/sirupsen/logrus.Logger)."+n] = logSink
 	}
+}
+
+type sliceAdapter struct {
+	fr   *frame
+	xs   []value
+	less value
+}
+
+func (s *sliceAdapter) Len() int { return len(s.xs) }
+func (s *sliceAdapter) Less(i, j int) bool {
+	r := call(s.fr.i, s.fr, 0, s.less, []value{i, j})
+	switch b := r.(type) {
+	case bool:
+		return b
+	case *Sym:
+		return X.decide(b)
+	}
+	return false
+}
+func (s *sliceAdapter) Swap(i, j int) {
+	checkWrite(&s.xs[i], s.fr)
+	checkWrite(&s.xs[j], s.fr)
+	s.xs[i], s.xs[j] = s.xs[j], s.xs[i]
 }
